@@ -4,9 +4,11 @@
 mod big;
 mod drive;
 mod explore;
+mod families;
 mod gen;
 mod jets;
 mod lang;
+mod mutate;
 mod props;
 mod refmodel;
 mod replay;
